@@ -77,6 +77,27 @@ def run(ctx):
             if nviol <= 3:
                 ctx.violation("pawn-table behaviour differs from its model (correspondence 'hm'): %s -> engine [%s] model [%s]" % (c[:200], a, b),
                               {"op": c, "engine": a, "model": b}, key="c14:hm:" + c[:60])
+    # (1b) purity with respect to the HISTORY OF THE POSITION OBJECT: after every step of nested make / unmake scripts (captures taken back
+    #      permute the piece lists: swap-remove) the object must evaluate like the same position loaded from its FEN
+    wroots = posgen.filter_valid(model, [f for _, f in posgen.material_positions(rng, 4 if q else 40)]) + posgen.valid_positions(model, rng, 60 if q else 800, extra=posgen.CLASSIC)
+    wl = ["walkgen %d %d %d %s" % (rng.randrange(1 << 30), 40 if q else 100, rng.choice([3, 6, 10]), f) for f in wroots]
+    rc, wscripts, err = run_lines(model, wl, shards=NPROC)
+    wcases = ["walk_eval %s | %s" % (f, sc) for f, sc in zip(wroots, wscripts) if sc]
+    rc, wres, err = run_lines(impl, wcases, shards=NPROC)
+    nwalk = 0
+    for c, r in zip(wcases, wres):
+        for i, pair in enumerate((r or "").split(" ; ")):
+            if ":" not in pair:
+                continue
+            nwalk += 1
+            a, b = pair.split(":")
+            if a != b:
+                nviol += 1
+                if nviol <= 4:
+                    ctx.violation("evaluation depends on the history of the position object: after %d step(s) of [%s] the object scores %s, the same position loaded from its FEN scores %s"
+                                  % (i, c[10:][:300], a, b), {"op": c, "step": i, "object": a, "fresh": b}, key="c14:walk:" + c[:200])
+                break
+    ctx.notes["walk_eval_steps"] = nwalk
     # (2) purity on the implementation: one long-lived evaluator over sequences (with clears) vs a fresh evaluator per position
     fens = posgen.valid_positions(model, rng, 400 if q else 6000, extra=posgen.CLASSIC)
     mats = posgen.filter_valid(model, [f for _, f in posgen.material_positions(rng, 6 if q else 80)] + posgen.FORTRESS_TEMPLATES + posgen.KBPSKB_TEMPLATES)
